@@ -6351,6 +6351,7 @@ CK_RV SoftHSM::WrapKeySym
 			break;
 #endif
 		case CKM_AES_CBC:
+			blocksize = 16;
 			algo = SymAlgo::AES;
 			break;
 			
@@ -6361,6 +6362,7 @@ CK_RV SoftHSM::WrapKeySym
 			break;
 			
 		case CKM_DES3_CBC:
+			blocksize = 8;
 			algo = SymAlgo::DES3;
 			break;
 			
